@@ -33,6 +33,10 @@ while k < len(a) and k < len(b) and a[k] == b[k]: k += 1
 adds = "\n".join(a[k:]).strip("\n")
 regs = re.findall(r'@translate\.register\("(\w+)"\)', adds)
 have = re.findall(r'@translate\.register\("(\w+)"\)', "\n".join(b))
+# helper names already defined in /verif's file would silently override each other: rename them inside the new chunk
+_existing = set(re.findall(r'(?m)^def (\w+)\(', "\n".join(b)))
+for _n in sorted(set(re.findall(r'(?m)^def (\w+)\(', adds)) & _existing, key=len, reverse=True):
+    adds = re.sub(r'\b%s\b' % re.escape(_n), "%s_%s" % (_n, PID.lower()), adds)
 if adds and not all(r in have for r in regs):
     open(os.path.join(V, "tools/translate_more.py"), "w").write("\n".join(b).rstrip("\n") + "\n\n\n# ---- %s (builder) ----\n" % PID + adds + "\n")
     print("translate_more: appended generators", regs)
